@@ -75,16 +75,27 @@ Theorem C07_property_under_hyps : forall maxr cmid0 smid0 acts,
 Proof. exact ex_system_safe. Qed.
 Print Assumptions C07_property_under_hyps.
 
-(* ... and so is "message ids do not wrap within the run" (finding C07-F5): after one
-   piggybacked exchange and 65535 exchanges answered separately, the request that re-uses the
-   first mid has its piggybacked response discarded as a duplicate and is gone from the send
-   queue: neither handler nor NACK.  Client model with an honest echoing peer; replayed on the
-   real client on every run (exw 65535 100). *)
-Theorem C07_concludes_refuted_mid_wrap :
-  ex_wrap_summary (Z.to_nat 65535) =
-  ((ExSend 0, [ExTx (ExReq 101 131072 0)]), (ExRx (ExAckR 101 131072) true, []), None).
-Proof. exact ex_wrap_refuted. Qed.
-Print Assumptions C07_concludes_refuted_mid_wrap.
+(* ... and so is "the server's message ids do not wrap within the run" (finding C07-F5b): a
+   separate Confirmable response with mid 7000 is delivered; 65535 exchanges answered by separate
+   Non-confirmable responses follow; the next separate Confirmable response carries mid 7000 again:
+   it is discarded as a duplicate (and acknowledged), the request is gone from the send queue -
+   neither handler nor NACK.  Client model with an honest echoing peer; replayed on the real
+   client on every run (exw 65535 100 1). *)
+Theorem C07_concludes_refuted_peer_mid_wrap :
+  ex_wrap_summary (ex_wrap_inputs_con (Z.to_nat 65535)) =
+  ((ExRx (ExConR 7000 131073) true, [ExTx (ExAckE 7000)]), None).
+Proof. exact ex_wrap_peer_refuted. Qed.
+Print Assumptions C07_concludes_refuted_peer_mid_wrap.
+
+(* the client's own message ids may wrap (after the fix of finding C07-F5a the hypothesis is not
+   needed: C07_concludes has none on cmid0); the schedule that lost a request before the fix - a
+   piggybacked exchange, 65535 exchanges answered separately, then the request that re-uses mid
+   101 - now ends in the handler call *)
+Theorem C07_own_mid_wrap_delivered :
+  ex_wrap_summary (ex_wrap_inputs (Z.to_nat 65535)) =
+  ((ExRx (ExAckR 101 131072) true, [ExResp 2 101 131072 131072]), None).
+Proof. exact ex_wrap_own_delivered. Qed.
+Print Assumptions C07_own_mid_wrap_delivered.
 
 (* "forall schedule, accepts (run M schedule) = true": the acceptor that judges the real
    library's traces accepts every behaviour of the guarded model (it is not vacuous), and the
@@ -129,7 +140,8 @@ Proof. exact ex_once_refuted_patient. Qed.
 Print Assumptions C07_at_most_once_refuted_late_response.
 
 (* "Never neither once the network is quiet".  Under the same three hypotheses and message ids
-   that do not wrap within the run, for every schedule: when the system is at rest (nothing in
+   of the server's session that do not wrap within the run (the client's own may), for every
+   schedule: when the system is at rest (nothing in
    flight, no work at the server, empty send queue) every request the application sent was
    answered (response handler or NACK for its token), unless its response was irrecoverably lost -
    ex_lost_run collects the tokens whose Non-confirmable response the network dropped and those
@@ -138,8 +150,7 @@ Print Assumptions C07_at_most_once_refuted_late_response.
    Confirmable lost"; a NON is sent once) made explicit; C07_concludes_needs_fairness shows it
    cannot be dropped. *)
 Theorem C07_concludes : forall maxr cmid0 smid0 acts,
-  0 <= cmid0 -> 0 <= smid0 ->
-  cmid0 + Z.of_nat (length acts) < 65536 -> smid0 + Z.of_nat (length acts) < 65536 ->
+  0 <= smid0 -> smid0 + Z.of_nat (length acts) < 65536 ->
   let cf := ex_cfg_guarded maxr in
   let y0 := ex_sys_init cmid0 smid0 in
   let r := ex_sys_run cf y0 acts in
@@ -152,8 +163,7 @@ Print Assumptions C07_concludes.
 (* exactly once: with nothing irrecoverably lost, at rest every token was answered, and (by
    C07_at_most_once_under_hyps) concluded at most once *)
 Theorem C07_exactly_once : forall maxr cmid0 smid0 acts,
-  0 <= cmid0 -> 0 <= smid0 ->
-  cmid0 + Z.of_nat (length acts) < 65536 -> smid0 + Z.of_nat (length acts) < 65536 ->
+  0 <= smid0 -> smid0 + Z.of_nat (length acts) < 65536 ->
   let cf := ex_cfg_guarded maxr in
   let y0 := ex_sys_init cmid0 smid0 in
   let r := ex_sys_run cf y0 acts in
